@@ -692,7 +692,7 @@ func ruleV1(c *Ctx) *RuleResult {
 		})
 		key := "MultivariantVariant.unmarshal|URI"
 		if uriStore == nil {
-			r.fail(key, c.Pos(fn.Pos()), FuncName(fn), "the variant URI is stored", "no store to MultivariantVariant.URI")
+			r.undecided("%s: %s — %s (the construct this rule is anchored on was not found: no verdict)", key, "the variant URI is stored", "no store to MultivariantVariant.URI")
 		} else {
 			conds := ifsOn(fn, func(v ssa.Value) bool {
 				bo, ok := v.(*ssa.BinOp)
